@@ -433,6 +433,20 @@ class Interp(seqdom.Interp):
         return Opq(f"stack `{astq.src(node, 50)}`")
 
     def call_hook(self, fn, args, kw, node, env):
+        if fn == "len" and len(args) == 1 and isinstance(args[0], Stk) and not args[0].transposed and isinstance(args[0].win, Win):
+            return I(args[0].n * P.s(SYM[args[0].win.role][0]))          # rows of a stack of blocks
+        if fn == "numpy.cumsum" and len(args) == 1 and not kw:
+            items = args[0].items if isinstance(args[0], Tup) else None
+            if items is None and isinstance(args[0], Sq):
+                t_ = normalise(args[0].t)
+                if t_[0] == "cat" and all(x[0] == "int" for x in t_[1]):
+                    items = [I(x[1]) for x in t_[1]]
+            if items is not None and items and all(self.topoly(x) is not None for x in items):
+                acc, out = P.c(0), []
+                for x in items:
+                    acc = acc + self.topoly(x)
+                    out.append(I(acc))
+                return Tup(out)
         if fn in ("tuple", "list", "numpy.array", "numpy.asarray", "numpy.ascontiguousarray") and len(args) == 1 and isinstance(args[0], (Slide, Stk, Cat, Blk4)):
             return args[0]
         if fn.endswith("sliding_window_view") and args and isinstance(args[0], Rec) and not args[0].transposed:
